@@ -27,6 +27,133 @@ import importlib  # noqa: E402
 ROOT = '/repo'
 
 
+def _scope_locals(fn: ast.AST) -> set[str]:
+    """Names bound in the function's own scope (not parameters, not names
+    bound only in nested scopes, not global/nonlocal)."""
+    out: set[str] = set()
+    banned: set[str] = set()
+    a = fn.args
+    params = {x.arg for x in a.posonlyargs + a.args + a.kwonlyargs}
+    if a.vararg:
+        params.add(a.vararg.arg)
+    if a.kwarg:
+        params.add(a.kwarg.arg)
+
+    def walk(n: ast.AST, top: bool) -> None:
+        for c in ast.iter_child_nodes(n):
+            if isinstance(c, (ast.FunctionDef, ast.AsyncFunctionDef,
+                              ast.ClassDef)):
+                out.add(c.name) if False else None
+                banned.add(c.name)
+                continue
+            if isinstance(c, (ast.Lambda, ast.ListComp, ast.SetComp,
+                              ast.DictComp, ast.GeneratorExp)):
+                # own scope for its targets; but walrus leaks: ignore
+                continue
+            if isinstance(c, (ast.Global, ast.Nonlocal)):
+                banned.update(c.names)
+            if isinstance(c, ast.Name) and isinstance(
+                c.ctx, (ast.Store, ast.Del)):
+                out.add(c.id)
+            if isinstance(c, ast.ExceptHandler) and c.name:
+                banned.add(c.name)
+            if isinstance(c, (ast.Import, ast.ImportFrom)):
+                for al in c.names:
+                    banned.add((al.asname or al.name).split('.')[0])
+            walk(c, False)
+    walk(fn, True)
+    return out - params - banned - {'self', 'cls'}
+
+
+class _Renamer(ast.NodeTransformer):
+    def __init__(self) -> None:
+        self.maps: list[dict[str, str]] = []
+
+    def _fn(self, n):
+        loc = _scope_locals(n)
+        # a nested function's own params/locals shadow the outer mapping
+        a = n.args
+        own = {x.arg for x in a.posonlyargs + a.args + a.kwonlyargs}
+        outer = {k: v for m in self.maps for k, v in m.items()
+                 if k not in own and k not in loc}
+        m = dict(outer)
+        m.update({k: f'{k}_rn' for k in loc})
+        # decorators, defaults and annotations live in the enclosing scope
+        n.decorator_list = [self.visit(d) for d in n.decorator_list]
+        n.args.defaults = [self.visit(d) for d in n.args.defaults]
+        n.args.kw_defaults = [
+            self.visit(d) if d is not None else None
+            for d in n.args.kw_defaults]
+        self.maps.append(m)
+        n.body = [self.visit(s) for s in n.body]
+        self.maps.pop()
+        return n
+    visit_FunctionDef = visit_AsyncFunctionDef = _fn
+
+    def visit_Lambda(self, n):
+        own = {x.arg for x in n.args.args}
+        m = {k: v for mm in self.maps[-1:] for k, v in mm.items()
+             if k not in own}
+        # lambda parameters are renamed too (positional callers only)
+        m.update({k: f'{k}_lm' for k in own})
+        for a in n.args.args:
+            a.arg = m[a.arg]
+        self.maps.append(m)
+        n.body = self.visit(n.body)
+        self.maps.pop()
+        return n
+
+    def _comp(self, n):
+        own = {x.id for g in n.generators for x in ast.walk(g.target)
+               if isinstance(x, ast.Name)}
+        m = {k: v for mm in self.maps[-1:] for k, v in mm.items()
+             if k not in own}
+        # comprehension variables are renamed too
+        m.update({k: f'{k}_cv' for k in own})
+        # the first iterable is evaluated in the enclosing scope
+        first = n.generators[0].iter
+        n.generators[0].iter = self.visit(first)
+        self.maps.append(m)
+        for i, g in enumerate(n.generators):
+            g.target = self.visit(g.target)
+            if i:
+                g.iter = self.visit(g.iter)
+            g.ifs = [self.visit(x) for x in g.ifs]
+        if isinstance(n, ast.DictComp):
+            n.key = self.visit(n.key)
+            n.value = self.visit(n.value)
+        else:
+            n.elt = self.visit(n.elt)
+        self.maps.pop()
+        return n
+    visit_ListComp = visit_SetComp = visit_GeneratorExp = _comp
+    visit_DictComp = _comp
+
+    def visit_ClassDef(self, n):
+        # names bound in the class body are attributes: never renamed
+        bound = {t.id for s in n.body for t in ast.walk(s)
+                 if isinstance(t, ast.Name) and isinstance(t.ctx, ast.Store)}
+        saved = self.maps
+        self.maps = [{k: v for k, v in (saved[-1] if saved else {}).items()
+                      if k not in bound}] if saved else []
+        self.generic_visit(n)
+        self.maps = saved
+        return n
+
+    def visit_Name(self, n):
+        if self.maps and n.id in self.maps[-1]:
+            n.id = self.maps[-1][n.id]
+        return n
+
+
+def rename_locals(text: str) -> str:
+    """Alpha-rename every local variable of every function (parameters,
+    attributes, globals and imports keep their names)."""
+    tree = ast.parse(text)
+    return ast.unparse(ast.fix_missing_locations(
+        _Renamer().visit(tree))) + '\n'
+
+
 def overlay(kind: str) -> dict[str, str]:
     src = SourceSet(ROOT)
     out = {}
@@ -34,6 +161,8 @@ def overlay(kind: str) -> dict[str, str]:
         text = src.text(rel)
         if kind == 'unparse':
             new = ast.unparse(ast.parse(text)) + '\n'
+        elif kind == 'rename':
+            new = rename_locals(text)
         elif kind == 'format':
             r = subprocess.run(
                 ['/venv/bin/ruff', 'format', '--stdin-filename', rel, '-'],
